@@ -670,7 +670,10 @@ C16_AutoIrrigation == (AfterInputs /\ Ev.irrigated /\ Cfg.autoIrr) =>
    /\ Ev.irrmm >= 0
 \* automatic N applications are never negative
 C16_AutoN == (AfterMineral /\ Cfg.autoFert) => LGeNeg(D(Minr, Crop, "DSUMM"), TolN)
-C16_All == C16_Order /\ C16_CropRecord /\ C16_SowWindow /\ C16_HarvestWindow /\ C16_AutoIrrigation /\ C16_AutoN
+\* ... and the latest harvest date is kept also by a crop that did not get anywhere: a sown entry is never still the current
+\* entry of the rotation after its latest harvest date (the harvest of the day moves the rotation on before the next day)
+C16_HarvestDue == (l > 1 /\ Ev.ev = "sub.crop" /\ Ev.akf >= 1 /\ Ev.saat > 0 /\ Ev.ernte2 > 0 /\ Ev.zeit >= Ev.saat) => Ev.zeit <= Ev.ernte2
+C16_All == C16_HarvestDue /\ C16_Order /\ C16_CropRecord /\ C16_SowWindow /\ C16_HarvestWindow /\ C16_AutoIrrigation /\ C16_AutoN
 
 \* ---------------------------------------------------------------------------------------------
 Alias == [l |-> l, pc |-> pc, nsub |-> nsub,
